@@ -10,6 +10,7 @@ import Gossamer.Lib.C22Inv
 import Gossamer.Lib.C22Possible
 import Gossamer.Lib.C22Example
 import Gossamer.Lib.C22Sim
+import Gossamer.Lib.C22SetsExample
 namespace Gossamer.C22
 
 /-! ## 1. quorum intersection -/
@@ -261,5 +262,45 @@ theorem C22_lib_rounds_counterexample :
     ¬ (parentOrder forkCfg.ps).comparable 2 3 := by
   refine ⟨rfl, ?_, by decide⟩
   decide
+
+/-! ## 7. several authority sets -/
+
+/-- SAFETY ACROSS AUTHORITY SETS.  The system of Lib/C22Sets: one protocol state per set id, voter set `P.vs s` for
+    set s (its own weights and Byzantine members; a key outside `(P.vs s).ids` — e.g. a retired authority that keeps
+    voting — weighs nothing in set s), every step is a step of the single-set protocol in one set.  ASSUMED of honest
+    voters (`okVote`): a vote of set s is never strictly above the handover block `P.limit s` (votes are capped at
+    the pending change); a vote of set s+1 descends from `P.limit s` and is cast only once `P.limit s` has a
+    supermajority of the precommits of some round of set s (one enters a set by finalising the handover block).
+    ASSUMED of the parameters: the handover blocks lie on one chain.  PROVED: any two blocks finalised by honest
+    voters, in any rounds of any sets, lie on one chain, if every set from the lower to the higher one keeps its
+    Byzantine members below a third of its weight. -/
+theorem C22_safe_sets {B : Type} [DecidableEq B] (P : SetParams B) (O : BlockOrder B)
+    (hlim : ∀ s, O.le (P.limit s) (P.limit (s + 1)) = true)
+    (σ : MState B) (hr : MReachable P O σ) (s1 s2 v1 v2 : Nat) (b1 b2 : B)
+    (hmin : ∀ k, min s1 s2 ≤ k → k ≤ max s1 s2 → (P.vs k).minority)
+    (h1 : b1 ∈ (σ s1).fin v1) (h2 : b2 ∈ (σ s2).fin v2) : O.comparable b1 b2 := by
+  have I := hr.minv
+  have ⟨r1, hr1⟩ := (I.inv s1).fin_ok v1 b1 h1
+  have ⟨r2, hr2⟩ := (I.inv s2).fin_ok v2 b2 h2
+  rcases Nat.le_total s1 s2 with h | h
+  · exact I.safe hlim s1 s2 r1 r2 b1 b2 h (fun k ha hb => hmin k (by omega) (by omega)) hr1 hr2
+  · exact (I.safe hlim s2 s1 r2 r1 b2 b1 h (fun k ha hb => hmin k (by omega) (by omega)) hr2 hr1).symm
+
+/-- within one set only that set's bound is needed, whatever happens in the other sets -/
+theorem C22_safe_within_set {B : Type} [DecidableEq B] (P : SetParams B) (O : BlockOrder B)
+    (σ : MState B) (hr : MReachable P O σ) (s v1 v2 : Nat) (b1 b2 : B) (hmin : (P.vs s).minority)
+    (h1 : b1 ∈ (σ s).fin v1) (h2 : b2 ∈ (σ s).fin v2) : O.comparable b1 b2 := by
+  have I := (hr.minv).inv s
+  have ⟨r1, hr1⟩ := I.fin_ok v1 b1 h1
+  have ⟨r2, hr2⟩ := I.fin_ok v2 b2 h2
+  exact I.hist.safe hmin r1 r2 b1 b2 hr1 hr2
+
+/-- non-vacuous: an execution over two sets (Lib/C22SetsExample) in which set 0 finalises the handover block 1 and
+    an honest voter of set 1 votes for block 3 above it -/
+theorem C22_safe_sets_nonvacuous :
+    ∃ σ : MState (Fin 4), MReachable Example.P Example.fork4 σ ∧
+      (∀ s, Example.fork4.le (Example.P.limit s) (Example.P.limit (s + 1)) = true) ∧
+      (1 : Fin 4) ∈ (σ 0).fin 0 ∧ (⟨0, .prevote, 0, 3⟩ : Msg (Fin 4)) ∈ (σ 1).sent :=
+  ⟨Example.μ14, Example.q14, Example.P_limits, by decide, by decide⟩
 
 end Gossamer.C22
